@@ -133,6 +133,12 @@ def check(run):
         s1, s2 = near_pair(rng, la, lb, sep, far)
         one_case(run, [s1, s2], specs2=[s2.copy(sph=not s2.sph)] if la % 2 else None)
         run.count("nearly coincident centres %g%s" % (sep, " far from origin" if far else ""))
+    from checks.common import sp_family
+    for k, ls in enumerate([(0, 1), (0, 2), (1, 2), (0, 1, 2)]):
+        specs = sp_family(rng, ls, two_centres=True)
+        one_case(run, specs)
+        one_case(run, list(reversed(specs)), specs2=specs[:1])
+        run.count("SP-type shared exponent arrays")
     for l in range(6):
         hi = core.exp_cap(l)
         s1 = ShellSpec(l, [0.0, 0.0, 0.0], [hi, 0.02], [[1.0], [0.5]], sph=(l % 2 == 0))
